@@ -72,37 +72,71 @@ def _href_entry(href: str, text: str, search: bool, prefix: str = "") -> Entry:
 
 
 def from_html(body: bytes) -> typing.List[Entry]:
-    """The listing table of the HTTP directory page: one row per entry."""
+    """The listing table of the HTTP directory page: one row per entry.  Read from parser
+    events (tag case, attribute order and quoting style do not matter): inside the first
+    table, every <tr> is an entry; its link is the first <a href> or <form action>, its
+    name the text of the <tt> element (or, without one, of the link)."""
     text = body.decode("utf-8", "surrogateescape")
-    i = text.find("<TABLE")
-    j = text.rfind("</TABLE>")
-    if i < 0 or j < 0:
-        raise parsers.Malformed("no listing table in the HTML page")
+    evs = parsers.html_events(text)
     out = []
-    for row in re.findall(r"<TR>(.*?)</TR>", text[i:j], re.S):
-        evs = parsers.html_events(row)
-        href = None
-        action = None
-        label = ""
-        in_tt = False
-        for ev in evs:
-            if ev[0] == "start" and ev[1] == "a":
-                href = dict(ev[2]).get("href")
-            elif ev[0] == "start" and ev[1] == "form":
-                action = dict(ev[2]).get("action")
+    depth = 0
+    row = None
+    in_tt = in_a = False
+    seen_table = False
+    for ev in evs:
+        if ev[0] == "start" and ev[1] == "table":
+            depth += 1
+            seen_table = True
+            continue
+        if ev[0] == "end" and ev[1] == "table":
+            if row is not None:
+                out.append(row)
+                row = None
+            depth -= 1
+            if depth <= 0:
+                break
+            continue
+        if depth != 1:
+            continue
+        if ev[0] == "start" and ev[1] == "tr":
+            if row is not None:
+                out.append(row)
+            row = {"href": None, "action": None, "tt": "", "atext": "", "has_tt": False}
+            in_tt = in_a = False
+        elif ev[0] == "end" and ev[1] == "tr":
+            if row is not None:
+                out.append(row)
+                row = None
+        elif row is not None:
+            if ev[0] == "start" and ev[1] == "a" and row["href"] is None:
+                row["href"] = dict(ev[2]).get("href")
+                in_a = True
+            elif ev[0] == "end" and ev[1] == "a":
+                in_a = False
+            elif ev[0] == "start" and ev[1] == "form" and row["action"] is None:
+                row["action"] = dict(ev[2]).get("action")
             elif ev[0] == "start" and ev[1] == "tt":
                 in_tt = True
+                row["has_tt"] = True
             elif ev[0] == "end" and ev[1] == "tt":
                 in_tt = False
-            elif ev[0] == "text" and in_tt:
-                label += ev[1]
-        if href is not None:
-            out.append(_href_entry(href, label, False))
-        elif action is not None:
-            out.append(_href_entry(action, label, True))
+            elif ev[0] == "text":
+                if in_tt:
+                    row["tt"] += ev[1]
+                elif in_a:
+                    row["atext"] += ev[1]
+    if not seen_table:
+        raise parsers.Malformed("no listing table in the HTML page")
+    res = []
+    for r in out:
+        label = r["tt"] if r["has_tt"] else r["atext"]
+        if r["href"] is not None:
+            res.append(_href_entry(r["href"], label, False))
+        elif r["action"] is not None:
+            res.append(_href_entry(r["action"], label, True))
         else:
-            out.append(Entry("i", label.encode("utf-8", "surrogateescape"), None))
-    return out
+            res.append(Entry("i", label.encode("utf-8", "surrogateescape"), None))
+    return res
 
 
 def from_wml(body: bytes, waptop: str = "/wap") -> typing.List[Entry]:
